@@ -426,20 +426,37 @@ def replay(req):
         reproduced = f.exc is None
         detail = "expected %s, real code returned normally" % name.split(":", 1)[1]
     else:
-        cl = None
-        for c in con.ensures_:
-            if c.name == name or name.startswith(c.name + "["):
-                cl = c
-        if cl is not None:
-            if con.ghost_exit is not None:
-                try:
-                    con.ghost_exit(f)
-                except Exception as e:  # noqa
-                    out["ghost_error"] = repr(e)
+        if con.ghost_exit is not None:
             try:
-                val = cl.fn(f)
-                reproduced = not bool(val)
-                detail = "clause %s evaluates to %r on the real objects" % (cl.name, bool(val))
+                con.ghost_exit(f)
+            except Exception as e:  # noqa
+                out["ghost_error"] = repr(e)
+        base = name.split("[")[0]
+        suffix = name[len(base):]
+        cands = [c for c in con.ensures_ if c.name == base]
+        if not cands and (base == "*" or not any(c.name == base for c in con.ensures_)):
+            cands = list(con.ensures_)          # not a post clause (loop lemma ...): probe every post clause
+            suffix = ""
+        for cl in cands:
+            try:
+                val = bool(cl.fn(f))
+                # known-finding split: "[outside:a,b]" = clause or guard_a or guard_b ; "[inside:a]" = guard_a => clause
+                if suffix.startswith("[outside:") or suffix.startswith("[inside:"):
+                    labels = suffix[suffix.index(":") + 1:-1].split(",")
+                    guards = []
+                    oldf = NFrame(f.old.self, f.old.args, f.old.g)
+                    oldf.old = f.old
+                    for lb in labels:
+                        if lb in cl.cases:
+                            guards.append(bool(cl.cases[lb](oldf)))
+                    val = (val or any(guards)) if suffix.startswith("[outside:") else ((not all(guards)) or val)
+                if not val:
+                    reproduced = True
+                    detail = "clause %s evaluates to False on the real objects" % cl.name
+                    out["failed_clause"] = cl.name
+                    break
+                reproduced = False
+                detail = "clause %s evaluates to True on the real objects" % cl.name
             except Exception as e:  # noqa
                 detail = "clause raised natively: %r" % (e,)
                 out["clause_traceback"] = traceback.format_exc().splitlines()[-6:]
